@@ -46,7 +46,7 @@ SHARED_SEL = _keep(lambda e: e.Jets().Select(lambda j: j.pt()))
 def shared_cut(e): return e.Jets().Count() > 1  # noqa: E704
 
 
-QOPS = [0, 1, 2, 3, 4, 5, 11]        # operation kinds of the quick tier
+QOPS = [0, 1, 2, 3, 5, 11]           # operation kinds of the quick tier
 TOPS = [0, 1, 2, 3, 4, 5, 6, 7, 8, 9, 10, 11]
 
 
@@ -63,7 +63,7 @@ def step(par, o, v, lams):
     "apply operation o to stream par; returns the new stream (or par itself for an execution)"
     typed = par.item_type is Evt
     if o == 0:     # Select; the lambda AST objects are shared between all steps of one history
-        return par.Select(lams["tsel"] if typed else lams["sel"])
+        return par.Select(lams["tsel"])       # one ast.Lambda object for every step, whatever the item type of the stream it is used on
     if o == 1:
         return par.MetaData({})
     if o == 2:
@@ -76,15 +76,17 @@ def step(par, o, v, lams):
         run(par)
         return par
     if o == 6:
-        return par.Where(lams["twh"] if typed else lams["wh"])
+        return par.Where(lams["twh"])
     if o == 7:
-        return par.SelectMany(lams["tsm"] if typed else lams["sm"])
+        return par.SelectMany(lams["tsm"])
     if o == 8:     # Select with a constant from the history inside the lambda
         return par.Select(ast.Lambda(lams["sel"].args, ast.BinOp(lams["sel"].body, ast.Add(), ast.Constant(v))))
     if o == 10:    # Select with a Python lambda object shared by all steps (source recovery + capture rewriting + type following on the recovered AST)
-        return par.Select(SHARED_SEL)
+        with nt():   # no symbolic value can reach this step (the operation code is case-split): run without the tracer's overhead (tokenizer!)
+            return par.Select(SHARED_SEL)
     if o == 11:    # Where with a one-line def passed by name
-        return par.Where(shared_cut)
+        with nt():
+            return par.Where(shared_cut)
     return par.Select(lams["dict"])
 
 
@@ -120,12 +122,12 @@ def history(k, ops, pars, vals):
 
 def c11(code: int, o2: int, p0: int, p1: int, p2: int, v: int) -> str:
     """
-    pre: LO <= code < HI and 0 <= code < 49
-    pre: 0 <= o2 < 7 and 0 <= p0 <= 1 and 0 <= p1 <= 2 and 0 <= p2 <= 3
+    pre: LO <= code < HI and 0 <= code < 36
+    pre: 0 <= o2 < 6 and 0 <= p0 <= 1 and 0 <= p1 <= 2 and 0 <= p2 <= 3
     post: (_ == '') != TWIN
     """
-    code = pick(code, max(LO, 0), min(HI, 49))
-    ops = [QOPS[code // 7], QOPS[code % 7], QOPS[pick(o2, 0, 7)]]
+    code = pick(code, max(LO, 0), min(HI, 36))
+    ops = [QOPS[code // 6], QOPS[code % 6], QOPS[pick(o2, 0, 6)]]
     pars = [pick(p0, 0, 2), pick(p1, 0, 3), pick(p2, 0, 4)]
     tick()
     try:
